@@ -316,6 +316,11 @@ func planC11(tier string, root *simcore.RNG) *plan {
 			}
 			if j.Sink != "tri" && r.Intn(4) == 0 {
 				j.Pre = pick(r, []int{1, 84, 5000, 300000})
+			} else if j.Sink != "tri" && r.Intn(8) == 0 {
+				// the output path is a named pipe (as with /dev/stdout into another program):
+				// nothing can be sought or truncated; every item must still reach the reader
+				j.Fault = Fault{Kind: "fifo"}
+				j.Name = ""
 			}
 			sc.Groups = [][]Job{{j}}
 			sc.Sites = activeSites(r, j.Sink, false)
@@ -356,6 +361,25 @@ func planC11(tier string, root *simcore.RNG) *plan {
 	if tier != "replay" {
 		for _, sc := range triggerSweep(root, "C11", "pipeline", sinks, tier) {
 			pl.scenarios = append(pl.scenarios, sc)
+		}
+	}
+	// a writer whose final step (flush + header rewrite, encode, save) takes 11 s of real
+	// time (thorough: also 31 s): the call must not return before the file is complete
+	if tier != "replay" {
+		finals := map[string]string{"stl": "cons.stl.flush", "3mf": "cons.3mf.encode", "dxf": "cons.dxf.save", "svg": "cons.svg.save"}
+		stalls := []int{11000}
+		if tier == "thorough" {
+			stalls = []int{11000, 31000}
+		}
+		for _, sink := range []string{"stl", "3mf", "dxf", "svg"} {
+			for _, ms := range stalls {
+				r := root.Fork()
+				j, _ := scriptJob(r, 1, tier, []string{sink}, 300+r.Intn(600), []string{"fives", "small"})
+				j.Name = ""
+				pl.scenarios = append(pl.scenarios, &Scenario{Prop: "C11", Family: "pipeline", Seed: r.Uint64(), Env: genEnv(r), Groups: [][]Job{{j}},
+					Sites: map[string]uint32{"prod": 16, "close": 1}, Sched: Sched{Policy: "fifo"}, Note: "slow-final-step",
+					ConsStallMs: ms, ConsStallEvery: 1, ConsStallSite: finals[sink]})
+			}
 		}
 	}
 	// large outputs: counts around 2^16 (and 2^17, thorough 2^20) for every sink
